@@ -565,7 +565,7 @@ def run_check(pid, tier, seed):
         v = ctx.violations[0]
         sprop, smod = stream_of(prop, model_mod, v.get('scenario'))
         small = shrink(sprop, smod, v['scenario'], v['sig']) if 'scenario' in v and v.get('shrink', True) else v.get('scenario')
-        path = write_replay(pid, {'property': pid, 'kind': 'failing-input', 'model': prop.MODEL,
+        path = write_replay(pid, {'property': pid, 'kind': 'failing-input', 'model': sprop.MODEL,
                                   'sig': v['sig'], 'what': v['what'], 'scenario': small,
                                   'original_scenario': v.get('scenario'), 'broken': ctx.broken,
                                   'replay_cmd': f'./check {pid} --replay <this file>'})
